@@ -128,6 +128,18 @@ def gen_opts(rng, db, fam, c, variant):
         o["subtype"] = rng.choice(["main", "nbu", "recovery", None])
     if ms & {"MixinFwVersion", "MixinManifestCrc", "MixinManifestDigest"}:
         o["firmware_version"] = rng.choice([0, 1, 0xFFFFFFFF, rng.getrandbits(32), None])
+    if "MixinBcaObsolete" in ms:
+        o["firmware_version"] = [None, 1, 0xFFFFFFFF, 0x01020304][variant % 4]
+    if "MixinFcfObsolete" in ms:
+        lab = [None, "OEM_OPEN", None, "OEM_CLOSED_ROP1", "NOT_SET", "OEM_CLOSED_NO_RETURN"][variant % 6]
+        if lab:
+            o["lifecycle"] = lab
+    if "MixinCertBlockVx" in ms:
+        o["cert"] = "vx"
+        if variant % 4 == 2:
+            o["just_header"] = True
+        if variant % 4 == 3:
+            o["add_cert_hash"] = False
     tzsize = f["tz_size"]
     mand = bool(ms & {"MixinTrustZoneMandatory", "MixinManifestCrc", "MixinManifestDigest"})
     if mand or "MixinTrustZone" in ms:
@@ -183,7 +195,7 @@ def gen_cases(tier, rng, db):
         ms = set(mixset(c))
         n = (8 if dup else 40) if thorough else nvar
         if not supported(c):
-            n = min(n, 2)
+            n = min(n, 6)
         for v in range(n):
             ln = LENGTHS_QUICK[k % len(LENGTHS_QUICK)] if (not thorough or v < 4) else (0x38 + (k * 7 + v) % 0x7C9)
             if not supported(c):
@@ -203,6 +215,23 @@ def gen_cases(tier, rng, db):
                         app[0x40C] = (0x00, 0x2D, 0xD4)[j % 3]
                     cases.append(("FCF life-cycle byte", {"family": fam, "target": t, "auth": a, "app": bytes(app).hex(),
                                                           "opts": gen_opts(rng, db, fam, c, 0)}))
+            if not dup:
+                # payloads that end inside / before the header area of the BCA based layouts, with and without a life cycle
+                if "MixinFcfObsolete" in ms:
+                    for j, ln in enumerate((0x100, 0x3C8, 0x3F0, 0x404, 0x40D, 0x85C, 0x860, 0xBFC)):
+                        for v in (0, 1):
+                            cases.append(("BCA/FCF header area", {"family": fam, "target": t, "auth": a, "app": gen_app(rng, ln).hex(),
+                                                                  "opts": gen_opts(rng, db, fam, c, v)}))
+                else:
+                    # mcxc: BCA tag present / absent, image-type bits of word 0x24 clear (so that parse finds the class)
+                    for j, ln in enumerate((0x400, 0x40C, 0x410, 0x500, 0xC40)):
+                        for tag in (False, True):
+                            app = bytearray(gen_app(rng, ln))
+                            app[0x24] &= 0xC0
+                            if tag:
+                                app[0x3C0:0x3C4] = b"kcfg"
+                            cases.append(("BCA/FCF header area", {"family": fam, "target": t, "auth": a, "app": bytes(app).hex(),
+                                                                  "opts": gen_opts(rng, db, fam, c, 0)}))
             continue
         # crafted: payload that ends in something resembling a relocation-table marker
         if not dup:
@@ -413,6 +442,88 @@ def crypto_value(case, res):
         dg = hashlib.new(alg, dts).digest()
     return VL([VB(sig), VB(hm), VB(ks), VB(dg)])
 
+# ------------------------------------------------------------------ BCA / FCF based layouts (mc56f81xxx, mwct20xx, mcxc): spec side
+LIFECYCLES = {"NOT_SET": 0xFF, "OEM_OPEN": 0xFE, "OEM_CLOSED_ROP1": 0x90, "OEM_CLOSED_ROP2": 0x95, "OEM_CLOSED_ROP3": 0x9B,
+              "OEM_CLOSED_NO_RETURN": 0x6B}
+P256_P = 0xFFFFFFFF00000001000000000000000000000000FFFFFFFFFFFFFFFFFFFFFFFF
+P256_B = 0x5AC635D8AA3A93E7B3EBBD55769886BC651D06B0CC53B0F63BCE3C3E27D2604B
+
+
+def p256_on_curve(xy):
+    if len(xy) != 64:
+        return False
+    x, y = int.from_bytes(xy[:32], "big"), int.from_bytes(xy[32:], "big")
+    return 0 < x < P256_P and 0 < y < P256_P and (y * y - (x * x * x - 3 * x + P256_B)) % P256_P == 0
+
+
+def vx_signed_ranges(b):
+    return b[:0x360] + b[0x3C0:0x400] + b[0xC00:]
+
+
+def bca_expected(ob, ms, res, app):
+    """The image the documented layout prescribes: the application with every header field the builder owns written AT ITS
+    OFFSET.  -> (image, None) or (None, name of the first field that does not fit into the application)."""
+    b = bytearray(app)
+
+    def put(name, off, data):
+        if off + len(data) > len(b):
+            return name
+        b[off:off + len(data)] = data
+        return None
+    if "MixinFcfObsolete" in ms and (ob.get("lifecycle", 0xFF) or 0) != 0xFF:
+        bad = put("life-cycle byte 0x40C", 0x40C, bytes([ob["lifecycle"]]))
+        if bad:
+            return None, bad
+    if "MixinBcaObsolete" in ms:
+        tot = len(vx_signed_ranges(bytes(b)))
+        bad = put("BCA image length 0x3E0", 0x3E0, struct.pack("<I", tot)) or \
+            put("BCA firmware version 0x3E4", 0x3E4, struct.pack("<I", ob.get("firmware_version") or 0))
+        if bad:
+            return None, bad
+    if "MixinBca" in ms and ob.get("bca"):
+        bad = put("BCA 0x3C0", 0x3C0, bytes.fromhex(ob["bca"]))
+        if bad:
+            return None, bad
+    if "MixinFcf" in ms and ob.get("fcf"):
+        bad = put("FCF 0x400", 0x400, bytes.fromhex(ob["fcf"]))
+        if bad:
+            return None, bad
+    if "ExportMixinCrcSignBca" in ms:
+        body = bytes(b[0xC00:])
+        bad = put("BCA CRC start 0x3C4", 0x3C4, struct.pack("<I", 0xC00)) or \
+            put("BCA CRC byte count 0x3C8", 0x3C8, struct.pack("<I", len(body))) or \
+            put("BCA CRC value 0x3CC", 0x3CC, struct.pack("<I", crc32_mpeg(body)))
+        if bad:
+            return None, bad
+    if "ExportMixinEccSignVx" in ms:
+        if ob.get("just_header"):
+            tbs = vx_signed_ranges(bytes(b[:0x800]))
+        else:
+            tbs = vx_signed_ranges(bytes(b))
+        sig = bytes.fromhex(res["signed"][0][1]) if res.get("signed") else b""
+        cb = bytes.fromhex((ob.get("cert") or {}).get("export", ""))
+        bad = put("image digest 0x360", 0x360, hashlib.sha256(tbs).digest()) or put("signature 0x380", 0x380, sig) or \
+            put("ISK certificate 0x410", 0x410, cb + bytes(0x4A0 - 0x410 - len(cb)))
+        if not bad and ob.get("add_hash", True):
+            ch = bytes.fromhex((ob.get("cert") or {}).get("cert_hash", ""))
+            bad = put("ISK certificate hash 0x4A0", 0x4A0, ch + bytes(0x5E0 - 0x4A0 - len(ch)))
+        if bad:
+            return None, bad
+        if ob.get("just_header"):
+            return bytes(b[:0x800]), None
+    return bytes(b), None
+
+
+def bx_value(ob):
+    def ob_opt(h):
+        return VL([]) if h is None else VL([VB(bytes.fromhex(h))])
+    cb = ob.get("cert") or {}
+    cert = VL([VB(bytes.fromhex(cb["export"])), VB(bytes.fromhex(cb.get("cert_hash", "")))]) if "export" in cb else VL([])
+    lc = ob.get("lifecycle")
+    return VL([VB(bytes.fromhex(ob.get("app") or "")), VI(0xFF if lc is None else lc), VI(ob.get("firmware_version") or 0), cert,
+               VI(1 if ob.get("add_hash", True) else 0), VI(1 if ob.get("just_header") else 0),
+               ob_opt(ob.get("bca")), ob_opt(ob.get("fcf"))])
+
 
 def lit(v):
     """Coq literal; byte strings as lists of primitive 63-bit integers, 7 bytes each (MbiIoModel.B)."""
@@ -485,7 +596,7 @@ def parse_cvalues(text):
     return out
 
 
-def run_model(tag, exprs, shard, timeout=1500, jobs=8):
+def run_model(tag, exprs, shard, timeout=1500, jobs=8, extra_imports=""):
     """like vlib.run_model_cases, for expressions of type MbiIoModel.cvalue"""
     import glob
     import subprocess
@@ -498,7 +609,7 @@ def run_model(tag, exprs, shard, timeout=1500, jobs=8):
     names = [f"{tag}_{k}" for k in range(len(shards))]
     for name, sh_ in zip(names, shards):
         with open(os.path.join(d, name + ".v"), "w") as f:
-            f.write("From Coq Require Import ZArith NArith List Uint63.\nRequire Import Value Bytes MbiMixinModel GenMbi MbiModel MbiIoModel.\n"
+            f.write("From Coq Require Import ZArith NArith List Uint63.\nRequire Import Value Bytes MbiMixinModel GenMbi MbiModel MbiIoModel" + extra_imports + ".\n"
                     "Import ListNotations.\nSet Printing Width 2000000000.\nSet Printing Depth 2000000000.\n"
                     + "".join(f"Eval vm_compute in ({e_}).\n" for e_ in sh_))
     results = [None] * len(names)
@@ -662,7 +773,10 @@ def oracle(case, res, db):
     if build_outcome(res)[0] != "ok":
         bo = build_outcome(res)
         if bo[1] != 1:
-            out.append((f"build:crash:{bo[2]}", f"builder raised a non-SPSDK exception in {bo[2]}: {bo[3]}"))
+            tag = ""
+            if "MixinBcaObsolete" in short(res.get("mixins", [])) and len(pad4(bytes.fromhex(case["app"]))) < 0x860:
+                tag = ":bca:vx-app-shorter-than-0x860"
+            out.append((f"build:crash:{bo[2]}[{errtag(res.get(bo[2]))}]{tag}", f"builder raised a non-SPSDK exception in {bo[2]}: {bo[3]}"))
         return out
     ms = res["mixins_short"]
     kind = kind_of(ms)
@@ -694,6 +808,14 @@ def oracle(case, res, db):
         cls.append("digest-present")
     if kind == "bca" and "ExportMixinAppFcf" in ms:
         cls.append("appfcf-class")
+    if kind == "bca" and "MixinFcfObsolete" in ms and (ob.get("lifecycle", 0xFF) or 0) != 0xFF and len(app_in) < 0x40D:
+        cls.append("lifecycle-set-app-ends-before-fcf")
+    if kind == "bca" and "MixinFcfObsolete" in ms and 0x3C0 < len(app_in) < 0x3D0:
+        cls.append("app-ends-inside-bca")
+    if kind == "bca" and "MixinBcaObsolete" in ms and len(app_in) < 0xC00:
+        cls.append("vx-app-ends-inside-header")
+    if kind == "bca" and "ExportMixinEccSignVx" in ms and not ob.get("add_hash", True):
+        cls.append("vx-add-hash-false")
     if kind == "bca" and "MixinBca" in ms and w32(app_in, 0x24) & 0x3F != res["image_type"]:
         cls.append("no-ivt-type-bits")
     if kind == "bca" and "MixinFcfObsolete" in ms and ob.get("lifecycle") == 0xFF and \
@@ -763,6 +885,19 @@ def oracle(case, res, db):
             off = w28 + ((HMAC_SIZE + (KS_SIZE if ob.get("key_store") else 0)) if hmac_on else 0)
             if image[off:off + len(cb)] != cb:
                 fail("header:cert-offset", f"no certificate block at the offset announced by IVT word 0x28 ({w28:#x})")
+    # ---- BCA / FCF based layouts: the image is the application with every header field written at its offset
+    if kind == "bca":
+        want, bad = bca_expected(ob, ms, res, app_in)
+        if want is None:
+            fail("header:bca-field-outside-image", f"accepted, but the {bad} lies outside the {len(app_in)}-byte application "
+                 f"(image {len(image)} bytes)")
+        elif want != image:
+            first = next((i for i in range(min(len(want), len(image))) if want[i] != image[i]), min(len(want), len(image)))
+            fail("header:bca-layout", f"image differs from the application with its header fields written in place: lengths "
+                 f"{len(image)}/{len(want)}, first difference at {first:#x}")
+        if "ExportMixinEccSignVx" in ms and res.get("signed"):
+            if bytes.fromhex(res["signed"][0][0]) != vx_signed_ranges(image):
+                fail("header:vx-signed-range", "the bytes handed to the signature provider are not image[:0x360] + image[0x3C0:0x400] + image[0xC00:]")
     # ---- object reuse: the k-th export of one object = the export of a fresh object with the current settings
     if res.get("reused"):
         if res.get("fresh") != "ok":
@@ -792,8 +927,15 @@ def oracle(case, res, db):
     p = res["parsed"]
     app_out = bytes.fromhex(p["app"] or "")
     if kind == "bca":
-        if app_out[0xC00:] != app_in[0xC00:] or len(app_out) != len(app_in):
+        if app_out != pad4(image):
+            fail("roundtrip:app-not-image", "the application of the parsed object is not the image")
+        if ob.get("just_header"):
+            pass                      # header-only image (justHeader): the application is not in the image by design
+        elif app_out[0xC00:] != app_in[0xC00:] or len(app_out) != len(app_in):
             fail("roundtrip:app", "application data behind the header area differs after parse")
+        for key in ("bca", "fcf"):
+            if key in ob and key in p and p[key] != ob[key]:
+                fail(f"roundtrip:{key}", f"{key.upper()} area differs after parse")
     elif outside_ivt(app_out) != outside_ivt(app_in):
         fail("roundtrip:app", f"application differs after parse outside the IVT words ({len(app_in)} -> {len(app_out)} bytes)")
     for name, key in (("load-address", "load_address"), ("image-version", "image_version"), ("subtype", "image_subtype"),
@@ -817,6 +959,8 @@ def oracle(case, res, db):
     if manifest and (p.get("manifest") or {}).get("digest") != (ob.get("manifest") or {}).get("digest"):
         fail("roundtrip:digest", "manifest digest algorithm differs after parse")
     # ---- re-export reproduces every byte outside the signature
+    if kind == "bca" and ob.get("just_header"):
+        return out
     if res.get("create_config") != "ok":
         fail(f"create_config:fails[{errtag(res.get('create_config'))}]", f"create_config of the parsed image fails: {res.get('create_config')}")
         return out
@@ -829,6 +973,10 @@ def oracle(case, res, db):
         sigs1 = list(res.get("signed") or []) + ([["", isk]] if isk else [])
         sigs2 = list(res.get("signed2" if key == "image2" else "signed3") or []) + ([["", isk]] if isk and key == "image3" else [])
         a, b = masked_pair(image, im2, sigs1, sigs2, ob, ms, manifest, isk and key == "image2")
+        if kind == "bca" and "ExportMixinEccSignVx" in ms and isk and key == "image2" and ob.get("add_hash", True):
+            for t_ in (a, b):         # hash of the ISK certificate, which was signed again (ECDSA, randomised)
+                if len(t_) >= 0x4B0:
+                    t_[0x4A0:0x4B0] = bytes(16)
         if bytes(a) != bytes(b):
             n = sum(1 for i in range(min(len(a), len(b))) if a[i] != b[i])
             first = next((i for i in range(min(len(a), len(b))) if a[i] != b[i]), min(len(a), len(b)))
@@ -838,6 +986,111 @@ def oracle(case, res, db):
         fail(f"create_config:schema-rejects({m.group(1) if m else '?'})",
              f"configuration written by create_config is refused by the schema: {res['schema2']}")
     return out
+
+
+# ------------------------------------------------------------------ BCA / FCF based classes: model side
+def bca_expr(case, res, c, db):
+    """io_bca expression of one case (settings as observed on the loaded object; primitives computed on the spec side)"""
+    f = db.fams[db.fidx[case["family"]]]
+    if build_outcome(res)[0] == "ok":
+        ob = res["input"]
+        image = bytes.fromhex(res["image"])
+    else:
+        # export refused / crashed: the object could still be observed? no -- settings from the case
+        o = case["opts"]
+        ob = {"app": pad4(bytes.fromhex(case["app"])).hex(), "lifecycle": LIFECYCLES.get(o.get("lifecycle") or "NOT_SET"),
+              "firmware_version": o.get("firmware_version") or 0, "add_hash": o.get("add_cert_hash", True),
+              "just_header": bool(o.get("just_header")), "bca": None, "fcf": None}
+        if o.get("cert"):
+            ob["cert"] = {"export": "00" * 136, "cert_hash": "00" * 16}
+        image = b""
+    sig = bytes.fromhex(res["signed"][0][1]) if res.get("signed") else b""
+    dts = bytes.fromhex(res["signed"][0][0]) if res.get("signed") else b""
+    kv = VL([VB(sig), VB(hashlib.sha256(dts).digest())])
+    pcv, pv = VL([]), VL([])
+    if res.get("parsed_class") or (res.get("parse") not in (None, "ok") and "Unsupported MBI type" not in str(res.get("parse"))):
+        # the class the documented rule selects (the implementation's own choice when it got that far)
+        pcn = res.get("parsed_class")
+        if pcn is None:
+            ty = f["fixed_image_type"] if f["fixed_image_type"] >= 0 else w32(image, 0x24) & 0x3F
+            pcn = next((cn for _, _, cn in f["offers"] if f["classes"][cn]["image_type"] == ty), None)
+        if pcn is not None and not supported(f["classes"][pcn]):
+            pcv = class_value(f["classes"][pcn])
+            bca_area = image[0x3C0:0x400]
+            pv = VL([VI(1 if p256_on_curve(image[0x418:0x458]) else 0),
+                     VL([VB(bca_area)]) if len(bca_area) == 64 and bca_area[:4] == b"kcfg" else VL([]),
+                     VB(image[0x400:0x410])])
+    return (f"io_bca ({db.fidx[case['family']]}) ({lit(class_value(c))}) ({lit(bx_value(ob))}) ({lit(kv)}) "
+            f"({lit(pcv)}) ({lit(pv)})")
+
+
+def bca_correspondence(bexprs, bplan, cases, results, db, stats):
+    if not bexprs:
+        return 0, []
+    mres = run_model("c01bca", bexprs, shard=max(4, len(bexprs) // 8 + 1), timeout=900, jobs=8,
+                     extra_imports=" MbiBcaModel MbiBcaIoModel")
+    nb, msgs = 0, []
+    for idx, mv0 in zip(bplan, mres):
+        stream, case = cases[idx]
+        res = results[idx]
+        bads = []
+        bo = build_outcome(res)
+        if mv0[0] != "l":
+            bads.append(f"model value {str(unvalue(mv0))[:80]}")
+            parts = []
+        else:
+            parts = list(zip(("export", "lens", "select", "parse"), mv0[1]))
+        for what, mv in parts:
+            if what == "export":
+                if bo[0] == "ok":
+                    img = bytes.fromhex(res["image"])
+                    if mv != ("b", img):
+                        if mv[0] == "b":
+                            first = next((i for i in range(min(len(mv[1]), len(img))) if mv[1][i] != img[i]), min(len(mv[1]), len(img)))
+                            bads.append(f"export differs: model {len(mv[1])} B, impl {len(img)} B, first difference at {first:#x}")
+                        else:
+                            bads.append(f"export: model {mv}, impl ok")
+                elif mv != ("e", bo[1]):
+                    bads.append(f"rejection: impl error kind {bo[1]} at {bo[2]} ({bo[3][:80]}), model {str(unvalue(mv))[:60]}")
+            elif what == "lens" and bo[0] == "ok":
+                if mv[0] != "l" or [x[1] for x in mv[1][:2]] != [res["total_len"], res["app_len"]]:
+                    bads.append(f"total_len/app_len: model {unvalue(mv)}, impl {[res['total_len'], res['app_len']]}")
+            elif what == "select":
+                f = db.fams[db.fidx[case["family"]]]
+                if res.get("parsed_class"):
+                    want = next(([regen_c01.TARGETS.index(t), regen_c01.AUTHS.index(a)] for t, a, cn in f["offers"]
+                                 if cn == res["parsed_class"]), None)
+                    if mv[0] != "l" or [x[1] for x in mv[1][:2]] != want:
+                        bads.append(f"class selection: model {unvalue(mv)}, impl {res['parsed_class']}")
+                elif res.get("parse") != "ok" and "Unsupported MBI type" in str(res.get("parse")) and mv[0] != "e":
+                    bads.append(f"class selection: model {unvalue(mv)}, impl finds no class")
+            elif what == "parse":
+                if mv == ("l", []):
+                    continue
+                if res.get("parse") != "ok":
+                    k = res["parse"][1]
+                    if mv != ("e", k):
+                        bads.append(f"parse: impl error kind {k} ({res['parse'][2] if len(res['parse']) > 2 else ''}), model {str(unvalue(mv))[:80]}")
+                elif mv[0] == "e":
+                    bads.append(f"parse: impl ok, model error {mv[1]}")
+                elif res.get("observe") == "ok":
+                    m = unvalue(mv)
+                    p = res["parsed"]
+                    mm = {"app": m[0], "lifecycle": m[1], "firmware_version": m[2],
+                          "cert": (m[3][0] if m[3] else None), "bca": (m[6][0] if m[6] else None),
+                          "fcf": (m[7][0] if m[7] else None)}
+                    pp = {k: p[k] for k in ("app", "lifecycle", "firmware_version", "bca", "fcf") if k in p}
+                    if "cert" in p:
+                        pp["cert"] = p["cert"].get("export")
+                    dfs = [k for k, v in pp.items() if mm[k] != v]
+                    if dfs:
+                        bads.append(f"parse result differs in {dfs}")
+                    stats[stream]["parsed"] += 1
+        for bad in bads:
+            nb += 1
+            msgs.append(f"[{case['family']} {case['target']}/{case['auth']} app {len(case['app']) // 2} B "
+                        f"{ {k: (v if not isinstance(v, (str, list)) or len(str(v)) < 30 else '...') for k, v in case['opts'].items()} }]: {bad}")
+    return nb, msgs
 
 
 # ------------------------------------------------------------------ main
@@ -882,6 +1135,7 @@ def run(tier):
     except Exception as ex:  # noqa
         rep.obligation("translate:device database + mbi_mixin classes -> Gen/GenMbi.v", False, repr(ex))
     model_ok, mlog = vlib.coq_make(["Model/MbiIoModel.vo"])
+    bca_model_ok, bmlog = vlib.coq_make(["Model/MbiBcaIoModel.vo"]) if model_ok else (False, mlog)
     vlib.check_theorems(rep, PID, THEOREMS, ["Proofs/MbiProofs.vo", "Proofs/MbiRtProofs.vo", "Proofs/MbiKindsProofs.vo", "Proofs/MbiEncProofs.vo", "Proofs/MbiHistProofs.vo", "Proofs/MbiSweepProofs.vo"])
     vlib.audit(rep)
     if d is None:
@@ -934,6 +1188,7 @@ def run(tier):
             results.append(r)
     # ---- oracles + model expressions
     exprs, plan = [], []
+    bexprs, bplan = [], []
     stats = {}
     for idx, ((stream, case), res) in enumerate(zip(cases, results)):
         if "history" in case:
@@ -966,7 +1221,10 @@ def run(tier):
         if not supported(c) or not model_ok:
             if build_outcome(res)[0] == "ok":
                 st["built"] += 1
-                st["distinct"].add((res["class"], len(res["image"])))
+                st["distinct"].add((res["class"], len(res["image"]), json.dumps(case["opts"], sort_keys=True)[:120]))
+            if not supported(c) and bca_model_ok and res.get("load") == "ok":
+                bexprs.append(bca_expr(case, res, c, db))
+                bplan.append(idx)
             continue
         bo = build_outcome(res)
         if bo[0] == "ok":
@@ -1071,6 +1329,17 @@ def run(tier):
             rep.obligation("correspondence:model evaluation", False, repr(ex)[-1500:])
     else:
         rep.obligation("correspondence:model builds", False, mlog[-1500:])
+    if bca_model_ok:
+        try:
+            nb, msgs = bca_correspondence(bexprs, bplan, cases, results, db, stats)
+            for m_ in msgs[:int(os.environ.get('C01_DEBUG', '8'))]:
+                vlib.log("  disagreement " + m_)
+            rep.obligation("correspondence:BCA/FCF model=implementation (export bytes, lengths, class selection, parse result, rejections)",
+                           nb == 0, f"{nb} disagreements" if nb else "")
+        except Exception as ex:  # noqa
+            rep.obligation("correspondence:BCA/FCF model evaluation", False, repr(ex)[-1500:])
+    else:
+        rep.obligation("correspondence:BCA/FCF model builds", False, bmlog[-1500:])
     for name, st in stats.items():
         rep.add_stream(name, st["n"], len(st["distinct"]), samples=st["samples"], exhaustive=False,
                        extra={"built": st["built"], "parsed_back": st["parsed"]})
